@@ -25,10 +25,11 @@ path = "{verif}/replay/src/main.rs"
 alpha_g_detector = {{ path = "{os.path.abspath(repo)}/detector" }}
 alpha_g_physics = {{ path = "{os.path.abspath(repo)}/physics", optional = true }}
 uom = {{ version = "0.35.0", optional = true }}
+alpha-g-analysis = {{ path = "{os.path.abspath(repo)}/analysis", optional = true }}
 serde_json = "1"
 crc32c = "0.6.4"
 [features]
-physics = ["alpha_g_physics", "uom"]
+physics = ["alpha_g_physics", "uom", "alpha-g-analysis"]
 [profile.release]
 debug-assertions = true
 overflow-checks = true
@@ -59,7 +60,7 @@ opt-level = 1
     return exe, None
 
 
-PHYSICS_OPS = {"c09_pad", "c13_sym", "c13_full_ring", "c09_event", "c10_table", "c18_drift", "event"}
+PHYSICS_OPS = {"c09_pad", "c13_sym", "c13_full_ring", "c09_event", "c10_table", "c18_drift", "event", "c19_sort"}
 
 
 def run(repo, verif, prop, checks, seed, tier):
